@@ -241,17 +241,21 @@ func init() {
 			var out []*explore.Scenario
 			b := 3
 			if tier == "thorough" {
-				b = 4
+				b = -1 // unbounded: closed by the happens-before state cache (about 150 k executions)
 			}
 			for _, k := range []string{"netctx.Conn", "netctx.PacketConn", "connctx"} {
 				for _, d := range []string{"read", "write"} {
 					out = append(out, c17scenario(k, d, b, false))
-					out = append(out, c17scenario(k, d, b-1, true))
+					if b > 0 {
+						out = append(out, c17scenario(k, d, b-1, true))
+					} else {
+						out = append(out, c17scenario(k, d, b, true))
+					}
 					out = append(out, c17scenario(k, d, b, false, true))
 				}
 			}
 			return out
 		},
-		Rule:        "for netctx.Conn, netctx.PacketConn and connctx over a scheduler-visible pipe (4-byte stream buffer with partial writes / 1-datagram queue): one context-controlled read or write whose context is cancelled by a separate thread at every possible point (before, during, after), a peer thread, then a probe operation with a live context; every interleaving within the deviation bound",
+		Rule:        "for netctx.Conn, netctx.PacketConn and connctx over a scheduler-visible pipe (4-byte stream buffer with partial writes / 1-datagram queue): one context-controlled read or write whose context is cancelled by a separate thread at every possible point (before, during, after), a peer thread, then a probe operation with a live context; every interleaving within the deviation bound (thorough: unbounded, the whole interleaving space is closed by the state cache)",
 		Assumptions: []string{"the wrapped connection is the harness's fake with exact deadline semantics (a passed deadline fails the blocked and every later operation until reset)"}})
 }
